@@ -38,18 +38,31 @@ var c08Kinds = []c08Kind{
 }
 
 type c08Obs struct {
-	ran bool
-	has bool
-	rem int64 // ctx.Deadline() - now, at handler invocation
+	ran         bool
+	has         bool
+	rem         int64 // ctx.Deadline() - now, at handler invocation
+	checkExpiry bool
+	done        chan struct{}
 }
 
 func c08Impl(o *c08Obs) *echoImpl {
 	rec := func(ctx context.Context) {
+		defer close(o.done)
 		o.ran = true
 		dl, has := ctx.Deadline()
 		o.has = has
 		if has {
 			o.rem = int64(dl.Sub(time.Now()))
+			// the deadline is live: not expired one nanosecond before it, DeadlineExceeded at it (virtual clock)
+			if o.rem > int64(time.Millisecond) && o.rem < int64(48*time.Hour) && o.checkExpiry {
+				time.Sleep(time.Duration(o.rem) - 1)
+				early := ctx.Err()
+				time.Sleep(1)
+				<-ctx.Done()
+				if early != nil || ctx.Err() != context.DeadlineExceeded {
+					o.rem = -7 // never a legitimate value: reported as a failing input
+				}
+			}
 		}
 	}
 	return &echoImpl{
@@ -108,12 +121,14 @@ func TestC08Sys(t *testing.T) {
 			idx++
 			continue
 		}
-		em.Marker("begin", idx)
+		stBegin(em, idx)
 		var o c08Obs
+		o.checkExpiry = c.transit == 0 && idx%3 == 0
 		var t0, t1 int64
 		var mdT string
 		bubble(t, func(t *testing.T) {
 			epoch := time.Now()
+			o.done = make(chan struct{}) // made inside the bubble: waiting on it is a durable block
 			l := NewLink(false)
 			srv := newEchoServer("dst", c08Impl(&o))
 			ret := make(chan error, 1)
@@ -152,6 +167,7 @@ func TestC08Sys(t *testing.T) {
 			time.Sleep(c.transit)
 			t1 = int64(time.Since(epoch))
 			l.StepC2S()
+			<-o.done // the handler may be watching its deadline expire: let it finish before the caller goes away
 			synctest.Wait()
 			cancel()
 			synctest.Wait()
@@ -191,8 +207,8 @@ func TestC08Sys(t *testing.T) {
 		em.Emit(Rec{Idx: idx, Kind: "sys", Desc: map[string]any{"kind": c.k.name, "has": c.hasDl, "remaining_ns": c.r, "transit": int64(c.transit), "md": c.md},
 			Obs:  map[string]any{"has": o.has, "rem": o.rem, "t0": t0, "t1": t1},
 			Tags: []string{"sys:kind=" + c.k.name, "sys:" + c.tag, "sys:remaining=" + class},
-			Coq: fmt.Sprintf("CSys %s %s %s %s %s %s", coqBool(c.k.stream), coqZ(t0), coqZ(t1), mdT, remT, coqOpt(o.has, coqZ(o.rem)))})
-		em.Marker("end", idx)
+			Coq:  fmt.Sprintf("CSys %s %s %s %s %s %s", coqBool(c.k.stream), coqZ(t0), coqZ(t1), mdT, remT, coqOpt(o.has, coqZ(o.rem)))})
+		stEnd(em, idx)
 		idx++
 	}
 
@@ -205,9 +221,19 @@ func TestC08Sys(t *testing.T) {
 	if thorough() {
 		stride = 1
 	}
+	allDigits := func(s string) bool {
+		for i := 0; i < len(s); i++ {
+			if s[i] < '0' || s[i] > '9' {
+				return false
+			}
+		}
+		return len(s) > 0
+	}
 	for i, v := range vals {
-		inGrammar := len(v) >= 2 && len(v) <= 9 && strings.ContainsAny(v[len(v)-1:], "HMSmun")
-		if i%stride != 0 && !inGrammar {
+		// every unsigned digit string of any length with a unit: the grammar, 9+ digit values, zero values, the
+		// saturation boundary of every unit (around 2^63 ns) and the int64 boundary of the number itself
+		numeric := len(v) >= 2 && strings.ContainsAny(v[len(v)-1:], "HMSmun") && allDigits(v[:len(v)-1])
+		if i%stride != 0 && !numeric && i%2 != 0 {
 			continue
 		}
 		lists = append(lists, []kv{{"x-before", "1S"}, {keys[i%len(keys)], v}})
@@ -219,13 +245,14 @@ func TestC08Sys(t *testing.T) {
 				idx++
 				continue
 			}
-			em.Marker("begin", idx)
+			stBegin(em, idx)
 			var o c08Obs
 			var hs []*goatorepo.KeyValue
 			for _, h := range hl {
 				hs = append(hs, &goatorepo.KeyValue{Key: h.K, Value: h.V})
 			}
 			bubble(t, func(t *testing.T) {
+				o.done = make(chan struct{})
 				ep := NewEndpoint("s")
 				srv := newEchoServer("dst", c08Impl(&o))
 				ret := make(chan error, 1)
@@ -237,6 +264,7 @@ func TestC08Sys(t *testing.T) {
 					env.Body = &goatorepo.Body{Data: body}
 				}
 				ep.Deliver(env)
+				<-o.done
 				synctest.Wait()
 				ep.FailRead(io.EOF)
 				synctest.Wait()
@@ -248,8 +276,8 @@ func TestC08Sys(t *testing.T) {
 			em.Emit(Rec{Idx: idx, Kind: "srv", Desc: map[string]any{"kind": k.name, "headers": hl},
 				Obs:  map[string]any{"has": o.has, "rem": o.rem},
 				Tags: []string{"srv:kind=" + k.name, fmt.Sprintf("srv:deadline=%v", o.has)},
-				Coq: fmt.Sprintf("CSrv %s %s %s", coqBool(k.stream), kvTerms(hs), coqOpt(o.has, coqZ(o.rem)))})
-			em.Marker("end", idx)
+				Coq:  fmt.Sprintf("CSrv %s %s %s", coqBool(k.stream), kvTerms(hs), coqOpt(o.has, coqZ(o.rem)))})
+			stEnd(em, idx)
 			idx++
 		}
 	}
